@@ -18,7 +18,8 @@
    a constant counts as one), the variable slots handed out
    by VarStack (with: 1 per declaration; of: 5; for..of: 5; for..in: 7, the
    loop variable is the sixth), children in dump order (an `of` over a tuple
-   lists its items in reverse).
+   lists its items in reverse; the expression of an <expr> and, since commit
+   21a3d45e, of an <expr>% quantifier comes first).
    Cond/Check.v compares [ir_of] with the tree parsed from the dump that
    Compiler::set_ir_writer received for the same rule, node by node.
 
@@ -184,7 +185,7 @@ Fixpoint tr (m : cmode) (sp : nat) (g : slots) (cur : nat) (e : expr) {struct e}
   | ELength p i => [IR KPatLength (pat_args p cur ++ [1]) (tr CNone sp g cur i)]
   | EOf qk q set ak a1 a2 =>
       [IR KOf []
-         ((match qk with QExpr => tr CNone sp g cur q | _ => [] end) ++
+         ((match qk with QExpr | QPct => tr CNone sp g cur q | _ => [] end) ++
           match ak with
           | ANone => []
           | AAt => tr CNone sp g cur a1
@@ -192,20 +193,20 @@ Fixpoint tr (m : cmode) (sp : nat) (g : slots) (cur : nat) (e : expr) {struct e}
           end)]
   | EOfB qk q items =>
       [IR KOf []
-         ((match qk with QExpr => tr CNone sp g cur q | _ => [] end) ++
+         ((match qk with QExpr | QPct => tr CNone sp g cur q | _ => [] end) ++
           rev (tr_list (sp + OF_FRAME) g cur items))]
   | EForOf qk q set body =>
       [IR KForOf (for_vars sp)
-         ((match qk with QExpr => tr CNone sp g cur q | _ => [] end) ++
+         ((match qk with QExpr | QPct => tr CNone sp g cur q | _ => [] end) ++
           tr CNone (sp + FOR_OF_FRAME) g (sp + 4) body)]
   | EForRange qk q x lo hi body =>
       [IR KForIn (for_vars sp)
-         ((match qk with QExpr => tr CNone sp g cur q | _ => [] end) ++
+         ((match qk with QExpr | QPct => tr CNone sp g cur q | _ => [] end) ++
           tr CNone sp g cur lo ++ tr CNone sp g cur hi ++
           tr CNone (sp + FOR_IN_FRAME) ((x, (sp + 5)%nat) :: g) cur body)]
   | EForTuple qk q x items body =>
       [IR KForIn (for_vars sp)
-         ((match qk with QExpr => tr CNone sp g cur q | _ => [] end) ++
+         ((match qk with QExpr | QPct => tr CNone sp g cur q | _ => [] end) ++
           tr_list sp g cur items ++
           tr CNone (sp + FOR_IN_FRAME) ((x, (sp + 5)%nat) :: g) cur body)]
   | EWith x d body =>
